@@ -91,4 +91,66 @@ def parseCells (bs : Bytes) : Option (List RawCell) := parseCellsFuel (bs.length
 /-- `RowWriter` after `n` `make_cell_writer` calls, then `from_closure`'s `u16` conversion. -/
 def fromClosureCount (n : Nat) : Option Nat := if n ≤ u16Max then some n else none
 
+/-! ### `RowWriter` (`writers.rs:11-55`) and `SerializedValues::from_closure` / `from_serializable` (`row.rs:520-549`)
+
+`value_count` is a `usize` in the Rust code: it is NOT bounded by `u16::MAX` while the row is being written
+("the protocol allows at most u16::MAX … but the writer's interface allows more to be written"), so it is an
+unbounded `Nat` here; the only bound is the explicit conversion at the end of `from_closure`. -/
+
+structure RW where
+  buf : Bytes
+  count : Nat
+  deriving Repr, DecidableEq, Inhabited
+
+/-- `RowWriter::new(&mut Vec::new())`. -/
+def RW.new : RW := ⟨[], 0⟩
+
+/-- `make_cell_writer()` followed by the value's serializer `f` on the same buffer: the count is incremented
+BEFORE the value is written, whether or not `f` then succeeds. -/
+def RW.makeCell {ε : Type} (w : RW) (f : Bytes → Bytes × Option ε) : RW × Option ε :=
+  match f w.buf with
+  | (b, e) => (⟨b, w.count + 1⟩, e)
+
+/-- `append_serialize_row(&sv)`. -/
+def RW.appendRow (w : RW) (sv : SV) : RW := ⟨w.buf ++ sv.bytes, w.count + sv.count⟩
+
+/-- Several successfully written cells in closed form (used by the driver for rows of ~70000 values;
+`Props.C17.writeCells_eq` proves it equal to one `makeCell` per cell). -/
+def RW.writeCells (w : RW) (cells : List Bytes) : RW := ⟨w.buf ++ cells.flatten, w.count + cells.length⟩
+
+/-- The tail of `from_closure`: `writer.value_count().try_into::<u16>()`, else `TooManyValues` (`none`). -/
+def RW.finish (w : RW) : Option SV := if w.count ≤ u16Max then some ⟨w.buf, w.count⟩ else none
+
+/-- What a `SerializeRow::serialize` body does to the writer: cells through `make_cell_writer`, whole rows
+through `append_serialize_row`. -/
+inductive WOp (ε : Type) where
+  | cell (f : Bytes → Bytes × Option ε)
+  | append (sv : SV)
+
+/-- The body of the closure: the operations in order, stopping at the first failing value (`?`). -/
+def runW {ε : Type} : List (WOp ε) → RW → RW × Option ε
+  | [], w => (w, none)
+  | .cell f :: ops, w =>
+    match w.makeCell f with
+    | (w', some e) => (w', some e)
+    | (w', none) => runW ops w'
+  | .append sv :: ops, w => runW ops (w.appendRow sv)
+
+/-- Number of values an operation binds. -/
+def WOp.values {ε : Type} : WOp ε → Nat
+  | .cell _ => 1
+  | .append sv => sv.count
+
+def totalValues {ε : Type} (ops : List (WOp ε)) : Nat := (ops.map WOp.values).sum
+
+/-- `SerializedValues::from_closure` / `from_serializable`: run the body on a fresh writer; a failing value
+aborts; otherwise the `usize → u16` conversion of the count decides between the result and `TooManyValues`. -/
+def fromClosure {ε : Type} (ops : List (WOp ε)) : Except (AddErr ε) SV :=
+  match runW ops RW.new with
+  | (_, some e) => .error (.ser e)
+  | (w, none) =>
+    match w.finish with
+    | none => .error .tooManyValues
+    | some sv => .ok sv
+
 end ScyllaVerif.Row
